@@ -5,6 +5,7 @@ import copy
 import random
 
 import objgen
+import frozen_ops
 from common import hx, unhx
 
 REQUIRED = [
@@ -15,6 +16,22 @@ REQUIRED = [
     "Swh.C11.eq_flags_table",
     "Swh.C11.construct_copy_isolated",
     "Swh.C11.construct_alias_not_isolated",
+    "Swh.C11.inv_init",
+    "Swh.C11.inv_step",
+    "Swh.C11.inv_reachable",
+    "Swh.C11.frozen_never_changes",
+    "Swh.C11.frozen_never_changes_reachable",
+    "Swh.C11.fromDict_view",
+    "Swh.C11.fromPairs_view",
+    "Swh.C11.fromFrozen_view",
+    "Swh.C11.copyPop_spec",
+    "Swh.C11.copyPop_lookup",
+    "Swh.C11.frozen_keys_distinct",
+    "Swh.C11.lookup_pure",
+    "Swh.C11.lookup_value",
+    "Swh.C11.shallow_copy_not_frozen",
+    "Swh.C11.alias_pairs_not_frozen",
+    "Swh.C11.copyPop_shared_not_frozen",
 ]
 RULE = (
     "every class (18 model classes, 3 SWHID classes, ImmutableDict) x every attrs field x every channel {setattr, "
@@ -55,6 +72,11 @@ def generate(ctx):
     # the library sorts the items)
     for keys in ([-1, -2], [0, 2**61 - 1], [-1, -2, 5], [1, 2**61], [0, 2**61 - 1, -1, -2], [1.0, 2**61], [True, 2**61]):
         cases.append({"cls": "ImmutableDictRaw", "keys": [repr(k) for k in keys]})
+    # whole histories over frozen mappings: the caller's dictionaries and lists change between and after the
+    # constructions (three constructor routes, copy_pop, lookups); see frozen_ops.py and Swh.Frozen
+    for _ in range(ctx.budget(60, 1500)):
+        cases.append({"cls": "ImmutableDictOps", "ops": frozen_ops.gen_history(rng, rng.randrange(4, 40)),
+                      "pairs_as": rng.choice(["list", "iter", "tuple", "gen"])})
     return cases
 
 
@@ -171,6 +193,20 @@ def check_cases(ctx, cases):
                 hs = {0}
             if any(not (m == ms[0] and ms[0] == m) for m in ms) or len(hs) != 1 or any(m not in {ms[0]} for m in ms):
                 ctx.fail(case, "frozen mappings with the same items (keys with colliding hashes) compare or hash differently depending on insertion order", "frozenmap-order-dependent:colliding-keys")
+            continue
+        if name == "ImmutableDictOps":
+            for o in case["ops"]:
+                ctx.count("frozen-op=" + o["o"])
+            try:
+                outs, trace = frozen_ops.run_impl(case["ops"], case.get("pairs_as", "list"))
+            except Exception as e:
+                ctx.fail(case, "a history of operations over frozen mappings raises %s: %s" % (type(e).__name__, str(e)[:100]), "frozenmap-history-raises")
+                continue
+            bad = frozen_ops.oracle(case["ops"], outs, trace)
+            if bad:
+                ctx.fail(case, "a frozen mapping changed after it was built, or was built or derived wrongly: " + bad, "frozenmap-history")
+            reqs.append({"op": "frozen_run", "ops": case["ops"]})
+            post.append(("frozen", case, (outs, trace)))
             continue
         if name == "ImmutableDict":
             items = [(unhx(k), unhx(v)) for k, v in case["items"]]
@@ -494,6 +530,15 @@ def check_cases(ctx, cases):
             ctx.disagree(case, "canonical item order of a frozen mapping: model vs implementation", model=m["sorted"], impl=impl)
         if kind == "alias" and sorted(m["observed"]) != sorted(impl):
             ctx.disagree(case, "object built from a container that is mutated afterwards: model (copying constructor) vs implementation", model=m["observed"], impl=impl)
+        if kind == "frozen":
+            outs, trace = impl
+            if m.get("outs") != outs:
+                ctx.disagree(case, "history over frozen mappings: per-operation results, model vs implementation", model=m.get("outs"), impl=outs)
+            elif m.get("trace") != trace:
+                n = next((i for i, (a, b) in enumerate(zip(m.get("trace") or [], trace)) if a != b), None)
+                ctx.disagree(case, "history over frozen mappings: contents after step %r, model vs implementation" % n,
+                             model=(m.get("trace") or [None] * (n + 1))[n] if n is not None else m.get("trace"), impl=trace[n] if n is not None else trace)
+            continue
         if kind == "eqf" and m["fields"] != impl:
             ctx.disagree(case, "eq fields: regenerated table vs attrs", model=m["fields"], impl=impl)
 
@@ -524,6 +569,41 @@ def thaw(v):
 
 
 def neighbours(ctx, case):
-    if case["cls"] == "ImmutableDict":
+    if case["cls"] == "ImmutableDictOps":
+        ops = case["ops"]
+        out = [dict(case, ops=ops[:n]) for n in range(1, len(ops))]
+        out += [dict(case, ops=ops[:i] + ops[i + 1:]) for i in range(len(ops))]
+        return out
+    if case["cls"] in ("ImmutableDict", "ImmutableDictRaw"):
         return []
     return [dict(case, seed=case["seed"] + i) for i in range(1, 6)]
+
+
+def shrink(ctx, failure):
+    """histories over frozen mappings: drop operations while the oracle still objects"""
+    case = failure["case"]
+    if case.get("cls") != "ImmutableDictOps" or failure["kind"] != "frozenmap-history":
+        return case
+    ops = list(case["ops"])
+
+    def bad(o):
+        try:
+            outs, trace = frozen_ops.run_impl(o, case.get("pairs_as", "list"))
+        except Exception:
+            return False
+        return frozen_ops.oracle(o, outs, trace) is not None
+
+    for n in range(1, len(ops)):
+        if bad(ops[:n]):
+            ops = ops[:n]
+            break
+    changed = True
+    while changed:
+        changed = False
+        for i in reversed(range(len(ops))):
+            cand = ops[:i] + ops[i + 1:]
+            if cand and bad(cand):
+                ops = cand
+                changed = True
+                break
+    return dict(case, ops=ops)
